@@ -150,10 +150,12 @@ func guardedReadHold(r *p2p.VerifRLPX, hold bool) (res readResult) {
 }
 
 type heldMsg struct {
-	r    io.Reader
-	want []byte
-	code uint64
-	at   int
+	r     io.Reader
+	want  []byte
+	code  uint64
+	at    int
+	left  int // later reads on the same connection this payload still has to survive before it is consumed
+	after int // later reads on the same connection that have happened while it was held
 }
 
 // ---------- message generator ----------
@@ -214,7 +216,7 @@ func allocBoundFor(n int) uint64 {
 // ---------- the session property ----------
 
 func TestRLPXSession(t *testing.T) {
-	ev.Check(t, ev.N(500, 42_000), func(t *rapid.T) {
+	ev.Check(t, ev.N(500, 33_000), func(t *rapid.T) {
 		fail := failer(t)
 		ka, kb := drawKey(t, "ka"), drawKey(t, "kb")
 		if idOf(ka) == idOf(kb) {
@@ -368,27 +370,54 @@ func TestRLPXSession(t *testing.T) {
 		}
 
 		// ---- message sequence ----
-		nmsg := rapid.IntRange(1, 6).Draw(t, "nmsg")
+		nmsg := rapid.IntRange(1, 8).Draw(t, "nmsg")
 		tamperAt := -1
 		if scenario == "tamper-frame" {
 			tamperAt = rapid.IntRange(0, nmsg-1).Draw(t, "tamperAt")
 		}
 		dead := [2]bool{} // direction whose stream has been tampered with
 		delivered := 0
-		var holds [2][]heldMsg // per reading end: messages delivered whose payload has not been consumed yet
-		drainHeld := func(end int, now int) {
-			for _, h := range holds[end] {
-				got, err := io.ReadAll(h.r)
-				if err != nil || !bytes.Equal(got, h.want) {
-					fail("message %d (code %x, %d bytes) was delivered, but its payload read after message %d arrived differs from what was written (err %v, %d bytes, equal prefix %d)",
-						h.at, h.code, len(h.want), now, err, len(got), commonPrefix(got, h.want))
-				}
+		// per reading end: messages delivered whose payload has not been consumed yet. A
+		// delivered message stays what was written for as long as the receiver holds it:
+		// each held payload is consumed only after a drawn number (1..4) of later reads
+		// on the same connection, or at the end of the session.
+		var holds [2][]heldMsg
+		consume := func(h heldMsg, now int) {
+			got, err := io.ReadAll(h.r)
+			if err != nil || !bytes.Equal(got, h.want) {
+				fail("message %d (code %x, %d bytes) was delivered, but its payload read after %d later read(s) on the same connection (at message %d) differs from what was written (err %v, %d bytes, equal prefix %d)",
+					h.at, h.code, len(h.want), h.after, now, err, len(got), commonPrefix(got, h.want))
+			}
+			if h.after >= 1 {
 				labels = append(labels, "payload-consumed-after-next-read")
 			}
-			holds[end] = nil
+			labels = append(labels, fmt.Sprintf("held-across:%d", h.after))
 		}
+		// drainHeld is called after every read on a connection (all=false) and at the end (all=true).
+		drainHeld := func(end int, now int, all bool) {
+			keep := holds[end][:0]
+			for _, h := range holds[end] {
+				if !all {
+					h.after++
+					h.left--
+				}
+				if all || h.left <= 0 {
+					consume(h, now)
+				} else {
+					keep = append(keep, h)
+				}
+			}
+			holds[end] = keep
+		}
+		prevDir := -1
 		for i := 0; i < nmsg; i++ {
+			// runs of frames in one direction (2 in 3 follow the previous one), so that a held
+			// payload sees several later frames, small and large, arrive on its connection
 			d := rapid.IntRange(0, 1).Draw(t, "dir")
+			if prevDir >= 0 && rapid.IntRange(0, 2).Draw(t, "turn") > 0 {
+				d = prevDir
+			}
+			prevDir = d
 			code := rapid.SampledFrom(msgCodes).Draw(t, "code")
 			size := drawSize(t)
 			payload := drawPayload(t, size)
@@ -441,13 +470,25 @@ func TestRLPXSession(t *testing.T) {
 				}
 				val := byte(rapid.IntRange(1, 255).Draw(t, "tval"))
 				all := conns[d].pending()
-				mutated := append(append([]byte{}, all[:before]...), mutateAt(append([]byte{}, frame...), pos, kind, val)...)
+				tampered := mutateAt(append([]byte{}, frame...), pos, kind, val)
+				if kind == "insert" && bytes.HasPrefix(tampered, frame) {
+					// inserting a copy of the frame's last byte(s) at the end leaves the bytes the reader
+					// consumes for this frame exactly as written (the ciphertext is random: 1 in 255 at the
+					// last position): that is no tampering of this frame; insert a different value
+					tampered = mutateAt(append([]byte{}, frame...), pos, kind, val^0xff)
+				}
+				mutated := append(append([]byte{}, all[:before]...), tampered...)
 				conns[d].setPending(mutated)
 				dead[d] = true
 				labels = append(labels, "tamper:"+region, "tamper-kind:"+kind)
 				canon = append(canon, fmt.Sprintf("T%s%d;", kind, pos)...)
 			}
 			hold := rapid.Bool().Draw(t, "holdpayload")
+			holdFor := 1
+			if hold {
+				holdFor = rapid.IntRange(1, 4).Draw(t, "holdfor")
+				canon = append(canon, fmt.Sprintf("H%d;", holdFor)...)
+			}
 			res := guardedReadHold(r, hold)
 			alloc := res.alloc
 			if res.pn != nil {
@@ -459,12 +500,12 @@ func TestRLPXSession(t *testing.T) {
 			if bound := allocBoundFor(size); alloc > bound && !(dead[d] && i != tamperAt) && !backgroundNoisy() {
 				fail("ReadMsg allocated %d bytes for a %d-byte message (tampered=%v)", alloc, size, dead[d])
 			}
-			drainHeld(1-d, i)
+			drainHeld(1-d, i, false)
 			if res.held != nil && !dead[d] {
 				if res.code != code || int(res.size) != size {
 					fail("delivered message differs: wrote code %x size %d, read code %x size %d", code, size, res.code, res.size)
 				}
-				holds[1-d] = append(holds[1-d], heldMsg{res.held, payload, code, i})
+				holds[1-d] = append(holds[1-d], heldMsg{r: res.held, want: payload, code: code, at: i, left: holdFor})
 				delivered++
 				labels = append(labels, sizeLabel(size))
 				continue
@@ -488,8 +529,8 @@ func TestRLPXSession(t *testing.T) {
 			delivered++
 			labels = append(labels, sizeLabel(size))
 		}
-		drainHeld(0, nmsg)
-		drainHeld(1, nmsg)
+		drainHeld(0, nmsg, true)
+		drainHeld(1, nmsg, true)
 		if delivered > 0 {
 			labels = append(labels, "delivered")
 		}
